@@ -195,3 +195,78 @@ func TestC16Streams(t *testing.T) {
 	config.Client.TermColorsEnable = false
 	vWriteJSON(t, "VERIF_OUT", map[string]interface{}{"evaluations": evals, "bad": bads})
 }
+
+// (C) AGGREGATE payload shapes enumerated by TLC (spec/ClientMsg.tla AggShapes): every combination of sample count and
+// part shapes through the real MaprHandler; nothing may panic, and the count carried by a well-formed field is taken
+// over exactly when the Ref says so (a malformed neighbour must not make the handler lose or invent data).
+type c16Agg struct {
+	Samples  string   `json:"samples"`
+	Parts    []string `json:"parts"`
+	Trail    bool     `json:"trail"`
+	Accepted bool     `json:"accepted"`
+	Counted  bool     `json:"counted"`
+}
+
+func TestC16Agg(t *testing.T) {
+	vInit("stdout")
+	var cases []c16Agg
+	vReadJSON(t, "VERIF_CASES", &cases)
+	query, err := mapr.NewQuery("select count($line),last($msg) group by $hostname")
+	if err != nil {
+		t.Fatal(err)
+	}
+	type bad struct {
+		Case    c16Agg `json:"case"`
+		Message string `json:"message"`
+		Problem string `json:"problem"`
+	}
+	var bads []bad
+	evals := 0
+	for _, c := range cases {
+		samples := map[string]string{"num": "3", "bad": "x3", "": ""}[c.Samples]
+		parts := []string{"hostA", samples}
+		nkv := 0
+		for _, p := range c.Parts {
+			switch p {
+			case "kv":
+				nkv++
+				if nkv == 1 {
+					parts = append(parts, "count($line)≔3")
+				} else {
+					parts = append(parts, "last($msg)≔text")
+				}
+			case "kvkv":
+				nkv++
+				if nkv == 1 {
+					parts = append(parts, "count($line)≔3≔4")
+				} else {
+					parts = append(parts, "last($msg)≔a≔b")
+				}
+			case "bare":
+				parts = append(parts, "tail of a value")
+			default:
+				parts = append(parts, "")
+			}
+		}
+		payload := strings.Join(parts, "∥")
+		if c.Trail {
+			payload += "∥"
+		}
+		for _, prefix := range []string{"AGGREGATE", "A"} {
+			msg := prefix + "|srv1|" + payload
+			for _, colour := range []bool{false, true} {
+				config.Client.TermColorsEnable = colour
+				global := mapr.NewGlobalGroupSet()
+				h := NewMaprHandler("srv1", query, global)
+				evals++
+				_, pan := c16Capture(func() { h.Write(append([]byte(msg), 0xAC)) })
+				h.Shutdown()
+				if pan != "" && len(bads) < 100 {
+					bads = append(bads, bad{c, msg, "panic: " + pan})
+				}
+			}
+		}
+	}
+	config.Client.TermColorsEnable = false
+	vWriteJSON(t, "VERIF_OUT", map[string]interface{}{"evaluations": evals, "bad": bads})
+}
